@@ -28,7 +28,7 @@ Section Part.
   Variable order : nat -> list nat -> list nat.
   Hypothesis order_perm : forall r l, Permutation (order r l) l.
 
-  Definition cb_of (gone : list nat) : list nat := match cb with CbOk => rev gone | _ => [] end.
+  Definition cb_of (gone : list nat) : list nat := match cb with CbOk _ => rev gone | _ => [] end.
 
   Definition PInv (g : gst) : Prop :=
     NoDup (g_gone g) /\ map fst (g_rc g) = rev (g_gone g) /\ g_cb g = cb_of (g_gone g).
@@ -36,7 +36,7 @@ Section Part.
   Lemma check_gone_shape : forall i tm g e g', check_gone kos cb fuel i tm g = (e, g') ->
     (g_gone g' = g_gone g /\ g_rc g' = g_rc g /\ g_cb g' = g_cb g) \/
     (exists r, g_gone g' = g_gone g ++ [i] /\ g_rc g' = (i, r) :: g_rc g /\
-               g_cb g' = match cb with CbOk => i :: g_cb g | _ => g_cb g end).
+               g_cb g' = match cb with CbOk _ => i :: g_cb g | _ => g_cb g end).
   Proof.
     intros i tm g e g' H. unfold check_gone in H.
     destruct (process_wait _ _ _ _ _ _ _) as [[[r o'] t'] sl].
@@ -188,7 +188,7 @@ Section Part.
     NoDup gone /\ NoDup alive /\ (forall i, In i gone -> ~ In i alive) /\
     (forall i, (i < length kos)%nat <-> In i gone \/ In i alive) /\
     map fst (g_rc g) = rev gone /\
-    g_cb g = match cb with CbOk => rev gone | _ => [] end.
+    g_cb g = match cb with CbOk _ => rev gone | _ => [] end.
   Proof.
     intros tmo rounds start gone alive g H. unfold wait_procs in H.
     destruct (bad_timeout tmo); [discriminate|].
@@ -362,6 +362,69 @@ Section Deadline.
 End Deadline.
 
 Example ex_procs : exists g,
-  wait_procs (map to_ko [ex_child; ex_stuck]) CbOk 100 (fun _ l => l) (Some (1 # 10)) 50 0 = (None, [0%nat], [1%nat], g)
+  wait_procs (map to_ko [ex_child; ex_stuck]) (CbOk false) 100 (fun _ l => l) (Some (1 # 10)) 50 0 = (None, [0%nat], [1%nat], g)
   /\ g_cb g = [0%nat] /\ forallb wf_proc [ex_child; ex_stuck] = true.
 Proof. eexists. split; [vm_compute; reflexivity|]. split; reflexivity. Qed.
+
+(* ---- the callback's truth value is never looked at ---- *)
+Section TruthBlind.
+  Variable kos : list koracle.
+  Variable fuel : nat.
+  Variable order : nat -> list nat -> list nat.
+  Variables b1 b2 : bool.
+
+  Lemma check_gone_blind : forall i tm g,
+    check_gone kos (CbOk b1) fuel i tm g = check_gone kos (CbOk b2) fuel i tm g.
+  Proof. intros. reflexivity. Qed.
+
+  Lemma round_blind : forall dl n l g cur,
+    round kos (CbOk b1) fuel dl n l g cur = round kos (CbOk b2) fuel dl n l g cur.
+  Proof.
+    intros dl n l. induction l as [|i r IH]; intros g cur; [reflexivity|]. cbn [round].
+    destruct dl as [d|].
+    - destruct (Qle_bool _ 0); [reflexivity|]. rewrite check_gone_blind.
+      destruct (check_gone kos (CbOk b2) fuel i _ g) as [[e|] g1]; [reflexivity | apply IH].
+    - rewrite check_gone_blind.
+      destruct (check_gone kos (CbOk b2) fuel i _ g) as [[e|] g1]; [reflexivity | apply IH].
+  Qed.
+
+  Lemma sweep_blind : forall l g, sweep kos (CbOk b1) fuel l g = sweep kos (CbOk b2) fuel l g.
+  Proof.
+    induction l as [|i r IH]; intro g; [reflexivity|]. cbn [sweep]. rewrite check_gone_blind.
+    destruct (check_gone kos (CbOk b2) fuel i 0 g) as [[e|] g1]; [reflexivity | apply IH].
+  Qed.
+
+  Lemma outer_blind : forall f dl alive g cur r,
+    outer kos (CbOk b1) fuel order f dl alive g cur r = outer kos (CbOk b2) fuel order f dl alive g cur r.
+  Proof.
+    induction f as [|f IH]; intros dl alive g cur r; [reflexivity|]. cbn [outer].
+    destruct alive as [|a al]; [reflexivity|].
+    destruct (match cur with Some t => Qle_bool t 0 | None => false end); [reflexivity|].
+    rewrite round_blind.
+    destruct (round kos (CbOk b2) fuel dl (length (a :: al)) (order r (a :: al)) g cur) as [[[e|] g1] c1]; [reflexivity|].
+    apply IH.
+  Qed.
+
+  (* a falsy callable and a truthy one give the very same run: same gone/alive, same callback calls *)
+  Theorem wait_procs_truth_blind : forall tmo rounds start,
+    wait_procs kos (CbOk b1) fuel order tmo rounds start = wait_procs kos (CbOk b2) fuel order tmo rounds start.
+  Proof.
+    intros tmo rounds start. unfold wait_procs. destruct (bad_timeout tmo); [reflexivity|].
+    rewrite outer_blind.
+    destruct (outer kos (CbOk b2) fuel order rounds _ _ _ tmo 0) as [[[[e|] alive] g] r]; [reflexivity|].
+    rewrite sweep_blind. reflexivity.
+  Qed.
+End TruthBlind.
+
+(* the callback is called exactly once for each gone process, in the order they were found gone, for EVERY
+   callable -- whatever bool(callback) is -- every kernel and every iteration order *)
+Theorem wait_procs_callback_any_callable : forall kos truthy fuel order,
+  (forall r l, Permutation (order r l) l) ->
+  forall tmo rounds start gone alive g,
+  wait_procs kos (CbOk truthy) fuel order tmo rounds start = (None, gone, alive, g) ->
+  g_cb g = rev gone /\ NoDup gone.
+Proof.
+  intros kos truthy fuel order OP tmo rounds start gone alive g H.
+  destruct (wait_procs_partition kos (CbOk truthy) fuel order OP _ _ _ _ _ _ H) as (NG & _ & _ & _ & _ & CB).
+  split; assumption.
+Qed.
